@@ -509,7 +509,7 @@ def first_failure(scs, aspects, dedup=False):
 
 
 # ---- PDF (pypdf writer; images are DCT streams so that get_data() is the embedded JPEG) ----
-def build_pdf(sc, bad_width_first=False):
+def build_pdf(sc, bad_width_first=False, chains=None):
     from pypdf import PdfWriter
     from pypdf.generic import ArrayObject, DictionaryObject, NameObject, NumberObject, StreamObject, TextStringObject
     w = PdfWriter()
@@ -532,7 +532,17 @@ def build_pdf(sc, bad_width_first=False):
             so[NameObject("/Height")] = NumberObject(size[1])
             so[NameObject("/ColorSpace")] = NameObject("/DeviceRGB")
             so[NameObject("/BitsPerComponent")] = NumberObject(8)
-            so[NameObject("/Filter")] = NameObject("/DCTDecode")
+            chain = (chains or {}).get(k)
+            if chain:
+                import binascii
+                import zlib
+                payload = data
+                for f in reversed(chain[:-1]):          # encode for every outer filter (they are undone first when decoding)
+                    payload = zlib.compress(payload) if f == "/FlateDecode" else (binascii.hexlify(payload) + b">")
+                so._data = payload
+                so[NameObject("/Filter")] = ArrayObject([NameObject(f) for f in chain])
+            else:
+                so[NameObject("/Filter")] = NameObject("/DCTDecode")
             xo[NameObject(f"/Im{k}")] = w._add_object(so)
             ops_.append(f"q 50 0 0 50 {10 * k} 10 cm /Im{k} Do Q")
         res = DictionaryObject()
@@ -966,6 +976,17 @@ def witness(kind, fmt):
         sc = Scenario(fmt, [[Anchor(f"{md}/a.png")], [Anchor(f"{md}/a.png", "relative", "dangling")], [Anchor(f"{md}/b.gif")]],
                       {f"{md}/a.png": A, f"{md}/b.gif": B}, note="the picture on unit 2 uses an r:embed id that only the relationship part of unit 1 defines")
         return first_failure([sc], ("no-foreign", "bytes", "unit", "numbering") if fmt != "pptx" else ("no-foreign", "bytes", "unit"))
+    if kind == "pdf-filter-chain":
+        # the same JPEG behind different (legal) filter chains: a one-element array, deflated, ASCII-hex
+        sc = pdf_scenario([[(30, 20), (31, 21), (32, 22), (33, 23)]])
+        chains = {1: ["/DCTDecode"], 2: ["/FlateDecode", "/DCTDecode"], 3: ["/ASCIIHexDecode", "/DCTDecode"], 4: ["/ASCIIHexDecode", "/FlateDecode", "/DCTDecode"]}
+        obs = observe(read("pdf", build_pdf(sc, chains=chains)))
+        exp = expected(sc)
+        got = [(o[1], o[0] == e[0]) for o, e in zip(obs, exp)]
+        if len(obs) != len(exp) or any(g != ("image/jpeg", True) for g in got):
+            return {"target": "pdf: iterate_images()", "aspect": "content-type", "inputs": dict(sc.describe(), filter_chains={str(k): v for k, v in chains.items()}),
+                    "expected": "4 images, each image/jpeg with the bytes of the embedded JPEG", "observed": f"{len(obs)} images: (content type, bytes identical) = {got}"}
+        return None
     if kind == "media-elsewhere":
         # the package, not a folder name, says where a picture lives: media parts outside the conventional media directory
         top = md.split("/")[0]
@@ -1082,6 +1103,12 @@ def search(ob, wit=None):
     if "/numbering#" in ob:
         # the number an image carries: documents whose pictures are all present, one unit (gaps and restarts have their own obligations)
         return sweep(fmt, ("numbering",), max_units=1, kinds=("embedded",))
+    if "content-type-of-the-last-filter" in ob or (fmt == "pdf" and "/content-type#" in ob):
+        return witness("pdf-filter-chain", "pdf")
+    if "size-is-the-declared-width-and-height" in ob:
+        return first_failure([pdf_scenario([[(30, 20), (7, 9)]]), pdf_scenario([[(1, 300)]])], ("pixel-size", "bytes"))
+    if "number-and-page-are-the-arguments" in ob:
+        return first_failure([pdf_scenario([[(30, 20), (7, 9)]])], ("numbering", "unit")) or first_failure([pdf_scenario([[(3, 2)], [(4, 5)]])], ("unit",))
     if "/completeness#" in ob:
         return witness("media-elsewhere", fmt) or sweep(fmt, ("resolution", "bytes"), kinds=("embedded",))
     if "/pixel-size#" in ob:
